@@ -6,6 +6,7 @@ package c12
 import (
 	"math"
 	"regexp"
+	"strconv"
 	"strings"
 	"unicode"
 	"unicode/utf8"
@@ -211,10 +212,16 @@ func refRegex(s, p string, ci bool) (match bool, compileErr error) {
 	return re.MatchString(s), nil
 }
 
-// escapeChangesWhenLowercased: the pattern has a backslash escape whose meaning changes when the
-// whole pattern is lower-cased: \S \D \W \B \A \P \Q \E ... (backslash + upper-case letter) or a
-// \p / \P class with an upper-case name (\pL, \p{Lu}).
-func escapeChangesWhenLowercased(p string) bool {
+// lowercasingChangesPattern: the pattern contains something whose meaning is lost when pattern
+// and input are both lower-cased (what "~*" does instead of compiling with (?i)):
+//   - a backslash escape followed by an upper-case letter: \S \D \W \B \A \P \Q \E ... become \s \d ...
+//   - a \p / \P class with an upper-case name (\pL, \p{Lu}) becomes an unknown class
+//   - a class or escape that denotes upper-case letters without spelling them: [[:upper:]], \x41
+//     (the lower-cased input can no longer contain what it denotes).
+func lowercasingChangesPattern(p string) bool {
+	if strings.Contains(p, "[:upper:]") || strings.Contains(p, "[:^lower:]") {
+		return true
+	}
 	rs := []rune(p)
 	for i := 0; i+1 < len(rs); i++ {
 		if rs[i] != '\\' {
@@ -232,6 +239,23 @@ func escapeChangesWhenLowercased(p string) bool {
 				if rs[j] == '}' || (j == i+2 && rs[j] != '{') {
 					break
 				}
+			}
+		}
+		if n == 'x' {
+			// \xHH or \x{H...}
+			hex := ""
+			j := i + 2
+			if j < len(rs) && rs[j] == '{' {
+				for j++; j < len(rs) && rs[j] != '}'; j++ {
+					hex += string(rs[j])
+				}
+			} else {
+				for ; j < len(rs) && j < i+4; j++ {
+					hex += string(rs[j])
+				}
+			}
+			if v, err := strconv.ParseInt(hex, 16, 32); err == nil && unicode.IsUpper(rune(v)) {
+				return true
 			}
 		}
 		i++ // the escaped character is consumed
